@@ -960,6 +960,12 @@ func c05run(w *report.W) {
 	gs := []string{"identity", "constA", "swapAB", "fresh"}
 	ops3 := c05ops(keys, []int{1, 2}, gs)
 	ops2 := c05ops([]string{"a", "b"}, []int{1}, []string{"swapAB", "fresh"})
+	// the same search over keys that need escaping in the encoders (control characters, quote, backslash, non-ASCII):
+	// the structure is the same, the JSON / YAML observers and their readers are what is exercised
+	exotic := []string{"\a", "b\x01\"\\", "\u00e9\x1b"}
+	opsX := c05ops(exotic, []int{1}, []string{"identity", "fresh"})
+	c05bfs(w, c05SA, "NewMap", opsX, 3, exotic, 2, "SA_NewMap_escaped_keys")
+	c05bfs(w, c05SS, "NewMap", opsX, 2, exotic, 2, "SS_NewMap_escaped_keys")
 	if !w.Thorough() {
 		c05bfs(w, c05SA, "NewMap", ops3, 4, keys, 3, "SA_NewMap_3keys")
 		c05bfs(w, c05SA, "zero", ops3, 3, keys, 2, "SA_zero_3keys")
@@ -1028,7 +1034,7 @@ func init() {
 	register(&report.Check{
 		ID:      "C05",
 		Workers: 1,
-		Rule: "explicit-state BFS over operation histories of the real ordered.Map (alphabet: Set/Replace/Delete over keys {a,b,c} x values {1,2}, " +
+		Rule: "explicit-state BFS over operation histories of the real ordered.Map (alphabet: Set/Replace/Delete over keys {a,b,c} x values {1,2} - and, to depth 3, over three keys made of control characters, quote, backslash and non-ASCII text - " +
 			"Range-with-rename callbacks, rebuild-from-items), from NewMap / zero-value / nil constructors, for MapSA and MapSS; states are distinct " +
 			"implementation states (deep snapshot of slots, tombstones, index); every observer compared with a list-of-pairs model in every state; " +
 			"Equal on all ordered pairs of states up to the pair depth; plus a systematic family of long histories (n keys, six deletion orders, " +
